@@ -334,7 +334,10 @@ KERNELS = [
     Kernel(RS, "RaggedView2", "ends", "gen_ends", [("s_", "Z"), ("len_", "Z"), ("c_", "Z")], {}, selfmap={"lengths": "len_", "starts": "s_", "col_step": "c_"}),
     # HashTable._get_hash / _get_mod
     Kernel("npstructures/hashtable.py", "HashTable", "_get_hash", "gen_hash", [("keys", "Z"), ("mod_", "Z")], {}, selfmap={"_mod": "mod_"},
-           branch=lambda body: widen_only(body)),
+           calls={"isinstance:isinstance(keys, int)": False}, branch=lambda body: widen_only(body)),
+    # ... and the branch taken for a Python int query (the modulus as a Python int)
+    Kernel("npstructures/hashtable.py", "HashTable", "_get_hash", "gen_hash_pyint", [("keys", "Z"), ("mod_", "Z")], {}, selfmap={"_mod": "mod_"},
+           calls={"isinstance:isinstance(keys, int)": True}, branch=lambda body: widen_only(body)),
     # RunLengthArray._get_position: negative wrap of the index
     Kernel("npstructures/runlengtharray.py", "RunLengthArray", "_get_position", "gen_rle_wrap", [("idx", "Z"), ("n_", "Z")], {},
            calls={"len:self": "n_", "self._ends[-1]": "n_"}, branch=lambda body: [ast.Return(value=body[0].value)]),
@@ -396,10 +399,10 @@ KERNELS += [
     Kernel(BA, "BitArray", "sliding_window", "gen_bit_window", [("reg_", "Z"), ("nxt_", "Z"), ("shift_", "Z"), ("rshift_", "Z"), ("window_size", "Z"), ("stride_", "Z")], {},
            selfmap=BITSELF, uint=64,
            calls={"self._data[:, None]": "reg_", "self._data[1:, None]": "nxt_", "self._shifts[::-1]": "rshift_", "aug:res[:-1]": "res",
-                  "res.ravel()[:self._shape[0] - window_size + 1]": "res"}),
+                  "res.ravel()[:max(self._shape[0] - window_size + 1, 0)]": "res"}),
     Kernel(BA, "BitArray", "sliding_window", "gen_bit_window_last", [("reg_", "Z"), ("shift_", "Z"), ("rshift_", "Z"), ("window_size", "Z"), ("stride_", "Z")], {},
            selfmap=BITSELF, uint=64,
-           calls={"self._data[:, None]": "reg_", "self._shifts[::-1]": "rshift_", "res.ravel()[:self._shape[0] - window_size + 1]": "res"},
+           calls={"self._data[:, None]": "reg_", "self._shifts[::-1]": "rshift_", "res.ravel()[:max(self._shape[0] - window_size + 1, 0)]": "res"},
            branch=lambda body: [s for s in body if not (isinstance(s, ast.AugAssign) and ast.unparse(s.target) == "res[:-1]")]),
 ]
 
@@ -445,7 +448,7 @@ KERNELS += [
            {"starts": "starts0", "ends": "ends0"}, ret="(Z * Z)", branch=rslice_arith),
 ]
 
-GROUPS = {"view": ["gen_calc_len", "gen_pos_col_slice", "gen_neg_col_slice", "gen_col_int", "gen_ends"], "hash": ["gen_hash"], "elem": ["gen_get_element"], "rslice": ["gen_rslice_row"], "rle": ["gen_rle_wrap", "gen_rle_slice_bounds", "gen_rle_step_idx", "gen_rl2_step_idx"],
+GROUPS = {"view": ["gen_calc_len", "gen_pos_col_slice", "gen_neg_col_slice", "gen_col_int", "gen_ends"], "hash": ["gen_hash", "gen_hash_pyint"], "elem": ["gen_get_element"], "rslice": ["gen_rslice_row"], "rle": ["gen_rle_wrap", "gen_rle_slice_bounds", "gen_rle_step_idx", "gen_rl2_step_idx"],
           "bits": ["gen_bit_init", "gen_bit_get", "gen_bit_get_arr", "gen_bit_unpack", "gen_bit_pack", "gen_bit_window", "gen_bit_window_last"]}
 
 
